@@ -2,6 +2,14 @@
 //! code executed symbolically is exactly the crate's `#[derive(Serialize, Deserialize)]` output and its hand-written
 //! bounds — not a text parser.  Not self-describing: structs and tuples are their fields in order, sequences are a
 //! length token followed by the elements, enum variants are an index token followed by the payload.
+//!
+//! The property quantifies over a *self-describing* format.  For plain derives the two agree (same fields, same order,
+//! same values).  Where the crate's serde code asks for something only a self-describing format can do (`serialize_map`,
+//! `deserialize_any`, `deserialize_map`, `deserialize_ignored_any`, string data — what `flatten`, `untagged`, `tag = ..`
+//! etc. generate) this format records a *limit* and the failure is reported as a `HARNESS-LIMIT` panic, which the runner
+//! classifies as *inconclusive*: the harness cannot tell whether the property still holds.  The self-describing twin is
+//! `toksd.rs` (affordable for the smallest states only).  (The limit is a side flag, not a variant of the error type:
+//! turning the zero-sized `TokError` into a two-variant enum took `c16_index_list` from 6 s to out of memory at 12 GB.)
 use serde::de::{self, DeserializeSeed, EnumAccess, SeqAccess, VariantAccess, Visitor};
 use serde::ser::{self, Serialize};
 use serde::Deserialize;
@@ -26,6 +34,20 @@ pub enum Tok {
 
 #[derive(Debug)]
 pub struct TokError;
+
+// see sym.rs: mutable statics of the harness crate start from magic bit patterns (Kani 0.68 merges zero-initialised ones
+// with promoted constants)
+const LIMIT_OFF: u64 = 0x5eed_5afe_7071_0000;
+static mut LIMIT_RAW: u64 = LIMIT_OFF;
+
+/// The format was asked for something a positional format cannot express.
+fn limit() -> TokError {
+    unsafe { LIMIT_RAW = LIMIT_OFF + 1 }
+    TokError
+}
+fn limit_hit() -> bool {
+    unsafe { LIMIT_RAW != LIMIT_OFF }
+}
 impl core::fmt::Display for TokError {
     fn fmt(&self, _f: &mut core::fmt::Formatter<'_>) -> core::fmt::Result {
         Ok(())
@@ -54,7 +76,7 @@ impl Buf {
     }
     fn put(&mut self, t: Tok) -> Result<(), TokError> {
         if self.len >= CAP {
-            return Err(TokError);
+            return Err(limit());
         }
         self.toks[self.len] = t;
         self.len += 1;
@@ -67,7 +89,8 @@ pub fn to_tokens<T: Serialize>(v: &T) -> Buf {
     let mut b = Buf::new();
     match v.serialize(&mut b) {
         Ok(()) => {}
-        Err(_) => panic!("TOK: serialisation failed (buffer too small or unsupported type)"),
+        Err(_) if limit_hit() => panic!("HARNESS-LIMIT: the positional token format cannot express what the serialiser asks for (map, string, signed/128-bit integer, or more than CAP tokens)"),
+        Err(_) => panic!("TOK: serialisation failed"),
     }
     b
 }
@@ -77,6 +100,7 @@ pub fn from_tokens<'de, T: Deserialize<'de>>(b: &Buf) -> T {
     let mut r = Reader { buf: b, pos: 0 };
     let v = match T::deserialize(&mut r) {
         Ok(v) => v,
+        Err(_) if limit_hit() => panic!("HARNESS-LIMIT: the positional token format cannot express what the deserialiser asks for (deserialize_any / map / string / ignored_any: needs a self-describing format)"),
         Err(_) => panic!("TOK: deserialisation failed"),
     };
     assert!(r.pos == b.len, "TOK: trailing tokens after deserialisation");
@@ -98,16 +122,16 @@ impl<'a> ser::Serializer for &'a mut Buf {
         self.put(Tok::Bool(v))
     }
     fn serialize_i8(self, _v: i8) -> Result<(), TokError> {
-        Err(TokError)
+        Err(limit())
     }
     fn serialize_i16(self, _v: i16) -> Result<(), TokError> {
-        Err(TokError)
+        Err(limit())
     }
     fn serialize_i32(self, _v: i32) -> Result<(), TokError> {
-        Err(TokError)
+        Err(limit())
     }
     fn serialize_i64(self, _v: i64) -> Result<(), TokError> {
-        Err(TokError)
+        Err(limit())
     }
     fn serialize_u8(self, v: u8) -> Result<(), TokError> {
         self.put(Tok::U8(v))
@@ -122,7 +146,7 @@ impl<'a> ser::Serializer for &'a mut Buf {
         self.put(Tok::U64(v))
     }
     fn serialize_f32(self, _v: f32) -> Result<(), TokError> {
-        Err(TokError)
+        Err(limit())
     }
     fn serialize_f64(self, v: f64) -> Result<(), TokError> {
         self.put(Tok::U64(v.to_bits()))
@@ -131,10 +155,10 @@ impl<'a> ser::Serializer for &'a mut Buf {
         self.put(Tok::Char(v))
     }
     fn serialize_str(self, _v: &str) -> Result<(), TokError> {
-        Err(TokError)
+        Err(limit())
     }
     fn serialize_bytes(self, _v: &[u8]) -> Result<(), TokError> {
-        Err(TokError)
+        Err(limit())
     }
     fn serialize_none(self) -> Result<(), TokError> {
         self.put(Tok::None)
@@ -171,7 +195,7 @@ impl<'a> ser::Serializer for &'a mut Buf {
                 self.put(Tok::Len(n as u32))?;
                 Ok(self)
             }
-            None => Err(TokError),
+            None => Err(limit()),
         }
     }
     fn serialize_tuple(self, _len: usize) -> Result<Self, TokError> {
@@ -185,7 +209,7 @@ impl<'a> ser::Serializer for &'a mut Buf {
         Ok(self)
     }
     fn serialize_map(self, _len: Option<usize>) -> Result<Self::SerializeMap, TokError> {
-        Err(TokError)
+        Err(limit())
     }
     fn serialize_struct(self, _n: &'static str, _len: usize) -> Result<Self, TokError> {
         Ok(self)
@@ -306,7 +330,7 @@ impl<'de, 'r, 'b> de::Deserializer<'de> for &'r mut Reader<'b> {
     type Error = TokError;
 
     fn deserialize_any<V: Visitor<'de>>(self, _v: V) -> Result<V::Value, TokError> {
-        Err(TokError)
+        Err(limit())
     }
     fn deserialize_bool<V: Visitor<'de>>(self, v: V) -> Result<V::Value, TokError> {
         match self.next()? {
@@ -404,7 +428,7 @@ impl<'de, 'r, 'b> de::Deserializer<'de> for &'r mut Reader<'b> {
         }
     }
     fn deserialize_ignored_any<V: Visitor<'de>>(self, _v: V) -> Result<V::Value, TokError> {
-        Err(TokError)
+        Err(limit())
     }
     serde::forward_to_deserialize_any! {
         i8 i16 i32 i64 i128 u128 f32 str string bytes byte_buf map
